@@ -355,6 +355,111 @@ def r06cdf(repo, chk):
                 pass
     chk.judge("R06.f", f"compile_pass:{qual}:push/pop: ra is pushed after the leading argument pops", ok_idx,
               "push ra is not inserted at 1 + <number of leading argument pops>: it would be popped as an argument", None, where)
+    # 'pop ra' goes in front of the value pushed for the caller at EVERY exit point (early returns and the end label): a 'pop ra'
+    # behind that push would take the returned value for the return address
+    def is_push_test(t, depth=0):
+        if any(isinstance(c, ast.Compare) and isinstance(c.left, ast.Attribute) and c.left.attr == "op" and any(isinstance(k, ast.Constant) and k.value == "push" for k in c.comparators)
+               for c in ast.walk(t)):
+            return True
+        # a flag that was given the result of that test
+        if depth < 2:
+            for nm in ast.walk(t):
+                if isinstance(nm, ast.Name) and isinstance(nm.ctx, ast.Load):
+                    defs = [a_ for a_ in ast.walk(fn) if isinstance(a_, ast.Assign) and any(isinstance(t_, ast.Name) and t_.id == nm.id for t_ in a_.targets)]
+                    if defs and all(is_push_test(a_.value, depth + 1) for a_ in defs):
+                        return True
+        return False
+
+    def adjusted(e, at, depth=0):
+        """every position in e went through 'one earlier if the instruction before it is a push': True / False / None"""
+        if depth > 6:
+            return None
+        if isinstance(e, ast.Call) and norm(e.func) in ("set", "sorted", "list", "tuple", "frozenset") and e.args:
+            return adjusted(e.args[0], at, depth + 1)
+        if isinstance(e, ast.BinOp) and isinstance(e.op, (ast.Add, ast.BitOr)):
+            a, b = adjusted(e.left, at, depth + 1), adjusted(e.right, at, depth + 1)
+            if a is False or b is False:
+                return False
+            return True if a and b else None
+        if isinstance(e, (ast.ListComp, ast.SetComp, ast.GeneratorExp)):
+            el = e.elt
+            if isinstance(el, ast.IfExp) and is_push_test(el.test):
+                return True
+            if isinstance(el, ast.Name) and len(e.generators) == 1 and isinstance(e.generators[0].target, (ast.Name, ast.Tuple)):
+                tgt = e.generators[0].target
+                first = tgt.id if isinstance(tgt, ast.Name) else (tgt.elts[0].id if isinstance(tgt.elts[0], ast.Name) else None)
+                if el.id == first and isinstance(tgt, ast.Name):
+                    return adjusted(e.generators[0].iter, at, depth + 1)       # passes the positions of another list through
+                if el.id == first:
+                    return False       # the raw index of an instruction
+            return None
+        if isinstance(e, (ast.List, ast.Tuple, ast.Set)):
+            rs = [adjusted(x, at, depth + 1) if isinstance(x, (ast.Name, ast.Starred)) else None for x in e.elts]
+            if any(r is False for r in rs):
+                return False
+            return True if rs and all(rs) else None
+        if isinstance(e, ast.Starred):
+            return adjusted(e.value, at, depth + 1)
+        if isinstance(e, ast.Name):
+            ids_ = live_ids(cfg, at)
+            ds = rd.at(ids_[0], e.id) if ids_ else []
+            if not ds:
+                return None
+            # a collection filled element by element
+            fills = [c for c in ast.walk(fn) if isinstance(c, ast.Call) and isinstance(c.func, ast.Attribute) and isinstance(c.func.value, ast.Name) and c.func.value.id == e.id
+                     and c.func.attr in ("add", "append")]
+            if fills:
+                ok_all = True
+                for c in fills:
+                    cid = live_ids(cfg, c)
+                    arg = c.args[0] if c.args else None
+                    under = any(is_push_test(t_) for t_, p_ in (guard_atoms(cfg, cid[0]) if cid else []))
+                    if not (under or isinstance(arg, ast.IfExp) and is_push_test(arg.test)):
+                        ok_all = False
+                return ok_all
+            rs = []
+            for d in ds:
+                if d.kind == "assign" and d.value is not None and not d.index:
+                    rs.append(adjusted(d.value, cfg.nodes[d.node].ast, depth + 1))
+                elif d.kind == "aug" and isinstance(d.value, ast.AugAssign):
+                    # x -= 1 under the push test
+                    rs.append(True if any(is_push_test(t_) for t_, p_ in guard_atoms(cfg, d.node)) else None)
+                else:
+                    rs.append(None)
+            # a scalar position: raw definition plus a conditional decrement under the push test
+            if any(r is True for r in rs) and not any(r is False for r in rs):
+                return True
+            if any(r is False for r in rs):
+                return False
+            return None
+        return None
+    pops = []
+    for t in ast.walk(fn):
+        if isinstance(t, ast.Tuple) and len(t.elts) == 2 and isinstance(t.elts[1], ast.Call) and t.elts[1].args and isinstance(t.elts[1].args[0], ast.Constant) \
+                and t.elts[1].args[0].value == "pop" and isinstance(t.elts[0], ast.Name):
+            pops.append(t)
+    for t in pops:
+        # where do the values of the position variable come from?
+        src = None
+        p_ = getattr(t, "parent", None)
+        while p_ is not None and p_ is not fn:
+            if isinstance(p_, (ast.ListComp, ast.SetComp, ast.GeneratorExp)):
+                for g_ in p_.generators:
+                    if isinstance(g_.target, ast.Name) and g_.target.id == t.elts[0].id:
+                        src = (g_.iter, p_)
+            if isinstance(p_, ast.For) and isinstance(p_.target, ast.Name) and p_.target.id == t.elts[0].id:
+                src = (p_.iter, p_)
+            p_ = getattr(p_, "parent", None)
+        key = f"compile_pass:{qual}:push/pop: 'pop ra' precedes the pushed return value at every exit point"
+        if src is None:
+            raise AnalysisError("add_ra_instructions: where the positions of 'pop ra' come from was not understood")
+        verdict = adjusted(src[0], src[0] if live_ids(cfg, src[0]) else src[1])
+        if verdict is None:
+            chk.unresolved("R06.f", key, f"how the positions {norm(src[0])[:60]} are computed was not understood", where)
+        else:
+            chk.judge("R06.f", key, verdict,
+                      f"some positions in {norm(src[0])[:60]} are the exit points themselves, without stepping in front of a preceding 'push': at 'push v; j <name>end' the "
+                      f"'pop ra' lands behind the push and takes v for the return address", None, where)
 
 
 def r06e(repo, chk):
